@@ -187,6 +187,10 @@ def _param_names(node):
     return [p.arg for p in a.posonlyargs + a.args] + [p.arg for p in a.kwonlyargs]
 
 
+def P_choose_default(path, p):
+    return path.choose(2, "default:" + p) == 1
+
+
 def prove_contract(session, c, max_paths=4000, time_budget=None, known=()):
     """Generate and discharge every obligation of contract c against the body
     extracted from the current tree.  Results go into `session`."""
@@ -214,6 +218,7 @@ def prove_contract(session, c, max_paths=4000, time_budget=None, known=()):
         I = pyvc.Interp(path, top=qn)
         I.top_contract = c
         I.prefer_variant = c.callee_variant
+        I.opaque_outside = getattr(c, 'opaque_outside_', None)
         path.current_fn = qn
         denv = pyvc.Env({}, ex.module.__dict__, ex.cls, qn, ex)
         args = {}
@@ -226,6 +231,11 @@ def prove_contract(session, c, max_paths=4000, time_budget=None, known=()):
         for p in params:
             if p in c.arg_kinds:
                 args[p] = make_symbolic(I, c.arg_kinds[p], p)
+            elif getattr(c, 'default_arg_kind', None) is not None:
+                if p in defaults and P_choose_default(path, p):
+                    args[p] = I.eval(defaults[p], denv)
+                else:
+                    args[p] = make_symbolic(I, c.default_arg_kind, p)
             elif p in defaults:
                 args[p] = I.eval(defaults[p], denv)
             else:
@@ -498,6 +508,8 @@ def apply_contract(I, c, ex, args, kwargs):
                 cls = cls[P.choose(len(cls), "exc-class")]
             e = ExcVal(cls, (Opaque('str', 'message', facts={'nonempty'}),))
             _exc_fields(I, e, cls)
+            for fa, fk in getattr(c, 'raise_fields_', {}).get(rname, {}).items():
+                e.fields[fa] = make_symbolic(I, fk, "raised." + fa)
             if ens:
                 l2 = dict(loc)
                 l2['raised'] = e
